@@ -736,7 +736,60 @@ impl Run {
             "same": resp["same"], "next": resp["next_status"]}));
     }
 
+    /// C06 / C03 over HTTP: a follow stream (GET /?follow or GET /head/{topic}?follow) scoped to one
+    /// context stays open while frames are appended to that and to other contexts
+    pub fn op_follow_probe(&mut self) {
+        if !self.http || self.dead {
+            return;
+        }
+        let pool: Vec<String> = std::iter::once(Self::zero()).chain(self.ctxs.iter().cloned()).collect();
+        let ctx = pool[self.rng.gen_range(0..pool.len())].clone();
+        let head = self.rng.gen_bool(0.6);
+        let topic = ["tA", "tAB", "tB"][self.rng.gen_range(0..3)];
+        let topic_s = self.fam.topics.get(topic).cloned().unwrap();
+        let target = if head {
+            format!("/head/{topic_s}?follow=true&context={ctx}")
+        } else {
+            format!("/?follow=true&tail=true&context-id={ctx}")
+        };
+        let r = self.call(json!({"op": "follow_open", "target": target}));
+        if Self::failed(&r) || r["status"] != json!(0) {
+            return;
+        }
+        // make sure the subscription exists before appending: the response head arrives first
+        std::thread::sleep(std::time::Duration::from_millis(30));
+        let before = self.events.len();
+        let forever = json!({"k": "forever", "n": 0});
+        let eph = json!({"k": "eph", "n": 0});
+        for c in pool.iter().take(3) {
+            let t = if self.rng.gen_bool(0.7) { topic } else { "tABC" };
+            let ttl = if self.rng.gen_bool(0.3) { &eph } else { &forever };
+            self.op_append(c, t, ttl, "none", "none");
+        }
+        self.op_append(&ctx, topic, &forever, "m1", "b1");
+        let appended: Vec<Value> = self.events[before..]
+            .iter()
+            .filter(|e| e["e"] == "append" && e["ok"] == json!(true))
+            .map(|e| e["f"].clone())
+            .collect();
+        let r = self.call(json!({"op": "follow_collect", "wait_ms": 150}));
+        if Self::failed(&r) {
+            return;
+        }
+        let frames: Vec<Value> = r["frames"].as_array().cloned().unwrap_or_default();
+        let res: Vec<Value> = frames
+            .iter()
+            .filter(|f| f["topic"] != "xs.threshold" && f["topic"] != "xs.pulse")
+            .map(|f| self.abs_frame(f))
+            .collect();
+        self.events.push(json!({"e": "followprobe", "route": if head { "head" } else { "cat" }, "topic": topic,
+            "ctx": idref(&ctx), "res": res, "appended": appended, "status": r["status"]}));
+    }
+
     pub fn random_probes(&mut self, n: usize) {
+        if self.http && self.rng.gen_range(0..8) == 0 {
+            self.op_follow_probe();
+        }
         if self.http && self.rng.gen_range(0..3) == 0 {
             let c = crate::http::BAD_CLASSES[self.rng.gen_range(0..crate::http::BAD_CLASSES.len())];
             self.op_bad(c);
